@@ -1611,6 +1611,13 @@ def _correspondence(ck, drv, cases, recs):
     for ln, want, got, inp in zip(lines, expect, ans, inputs):
         if inp == ("wfall",):
             bad = [layouts[int(i)]["file"] for i in got.split(",")] if got not in ("-", "") else []
+            known_ill = {"devices/kw45b41z8/ifr_cmactable_a0.json", "devices/kw47b42zb7/ifr_cmactable_a0.json", "devices/kw47b42zb7/ifr_romcfg_a0.json",
+                         "devices/mcxn946/pfr_cmpa_a0.json", "devices/mcxn946/pfr_cfpa_a0.json"}
+            for f in bad:
+                if f not in known_ill:
+                    i = next(k for k, l in enumerate(layouts) if l["file"] == f)
+                    users = sorted(c for c, ix in rows.items() if ix == i)[:3]
+                    ck.broken.append(f"generated layout is ill-formed (overlapping / out-of-page registers, bit-fields outside the register, size): {f}; used by {', '.join(users)}")
             ck.extra["layout_checker"] = {"ill_formed_layouts": bad, "how": "layoutWFb executed natively by drv_c12 over the whole generated table; "
                                           "the same statement is kernel-checked (decide +kernel) by gen_layouts_wf_partial in Properties/C12.lean"}
             continue
@@ -1619,6 +1626,21 @@ def _correspondence(ck, drv, cases, recs):
             for ent in ([] if got in ("-", "") else got.split(",")):
                 i, cl = ent.split(":")
                 bad[layouts[int(i)]["file"]] = cl.split("+")
+            expected_bad = {"devices/kw45b41z8/ifr_cmactable_a0.json", "devices/kw47b42zb7/ifr_cmactable_a0.json", "common/xmcd/flexspi_ram_simplified.json",
+                            "common/xmcd/xspi_ram_simplified.json", "devices/mimx9131/fuses.json", "devices/mimx9596/fuses.json"}
+            for f, cl in bad.items():
+                if f in expected_bad and set(cl) <= {"regnames", "findreg", "fieldnames"}:
+                    continue
+                i = next(k for k, l in enumerate(layouts) if l["file"] == f)
+                drv.ask(f"sel {i}")
+                where = drv.ask("dwhere")
+                detail = ""
+                if where not in ("-", ""):
+                    ri, fi, what = where.split(":")
+                    regd = dmeta[i]["regs"][int(ri)]
+                    detail = f" register '{regd[1]}'" + (f" bit-field '{regd[5][int(fi)][4]}'" if fi != "-" else "") + f" ({what})"
+                users = sorted(c for c, ix in rows.items() if ix == i)[:3]
+                ck.broken.append(f"generated database table fact fails [{'+'.join(cl)}]: {f}{detail}; used by {', '.join(users)}")
             ck.extra["details_checker"] = {"failing": bad, "how": "the clauses of gen_details_ok / gen_fcb_table / gen_bca_fcf_table / gen_memcfg_table evaluated "
                                            "natively per layout (names the database file and the fact when one of these theorems stops checking; the "
                                            "files listed here on a green run are the named exceptions knownDuplicateRegNames / knownDuplicateFieldNames)"}
